@@ -196,12 +196,18 @@ def run_harness(name, lines, tag, timeout=900, per_process=False):
     os.makedirs(d, exist_ok=True)
     if per_process:
         # one process per case (global state such as poisoned locks must not leak)
+        hang_count = [0]
+
         def one(i_line):
             i, line = i_line
             inp = os.path.join(d, "in_%d.txt" % i)
             outp = os.path.join(d, "out_%d.txt" % i)
             open(inp, "w").write(line + "\n")
-            rc, out = sh([HARNESS_BIN, name, inp, outp], 60)
+            if hang_count[0] >= 8:
+                return None            # the implementation hangs: do not wait for every remaining case
+            rc, out = sh([HARNESS_BIN, name, inp, outp], 20)
+            if rc == 124:
+                hang_count[0] += 1
             if rc != 0 or not os.path.exists(outp):
                 return None
             txt = open(outp).read().strip()
